@@ -55,11 +55,30 @@ Theorem C35_miners_by_rank_order_independent :
 Proof. exact rk_by_rank_order_independent. Qed.
 Print Assumptions C35_miners_by_rank_order_independent.
 
-(* Whenever the round has a seed, the stored permutation was computed from that seed. *)
+(* Whenever the round has a seed, the stored permutation was computed from that seed (and the
+   miner count of some call); after SetRandomSeedForNotarizedBlock(seed, n) it is the permutation
+   of exactly (seed, n), also when only n differs from what was stored; SetRandomSeed(seed, n)
+   does the same on a round without a seed and is ignored otherwise. *)
 Theorem C35_stored_ranks_belong_to_seed :
-  forall ops, rs_seed (rs_run ops) <> 0 -> rs_permseed (rs_run ops) = Some (rs_seed (rs_run ops)).
+  forall ops, rs_seed (rs_run ops) <> 0 ->
+    exists n, rs_permkey (rs_run ops) = Some (rs_seed (rs_run ops), n).
 Proof. exact rs_perm_matches_seed. Qed.
 Print Assumptions C35_stored_ranks_belong_to_seed.
+
+Theorem C35_stored_ranks_belong_to_last_seed_and_count :
+  forall ops seed n,
+    rs_permkey (rs_run (ops ++ [RsSetNotarized seed n])) = Some (seed, n) /\
+    rs_seed (rs_run (ops ++ [RsSetNotarized seed n])) = seed.
+Proof. exact rs_notarized_call_recomputes. Qed.
+Print Assumptions C35_stored_ranks_belong_to_last_seed_and_count.
+
+Theorem C35_plain_seed_call_first_wins :
+  forall ops seed n,
+    (rs_seed (rs_run ops) = 0 -> rs_permkey (rs_run (ops ++ [RsSet seed n])) = Some (seed, n) /\
+                                rs_seed (rs_run (ops ++ [RsSet seed n])) = seed) /\
+    (rs_seed (rs_run ops) <> 0 -> rs_run (ops ++ [RsSet seed n]) = rs_run ops).
+Proof. exact rs_plain_call. Qed.
+Print Assumptions C35_plain_seed_call_first_wins.
 
 (* After any history of additions, proposals, updates and reads the round holds at most one
    notarized block per rank (and per hash), heaviest first. *)
